@@ -48,6 +48,8 @@ var (
 
 const shimAlias = "vs__"
 
+var pkgRace bool
+
 func fail(format string, a ...interface{}) {
 	fmt.Fprintf(os.Stderr, "INSTRUMENT-ERROR: "+format+"\n", a...)
 	os.Exit(2)
@@ -63,6 +65,12 @@ func main() {
 	}
 	for _, a := range flag.Args() {
 		p := strings.Split(a, "=")
+		if len(p) == 4 && p[3] == "norace" {
+			pkgRace = false
+			p = p[:3]
+		} else {
+			pkgRace = *raceMode
+		}
 		if len(p) != 3 {
 			fail("bad argument %q", a)
 		}
@@ -85,9 +93,182 @@ func chanType(elem ast.Expr) ast.Expr {
 }
 
 type rewriter struct {
-	info *types.Info
-	n    int
-	file string
+	info    *types.Info
+	n       int
+	file    string
+	mutable map[*types.Var]bool
+	pre     map[ast.Stmt][]ast.Stmt
+}
+
+// ---------------------------------------------------------------- field accesses (race build)
+//
+// Fields that are assigned somewhere after construction (x.f = v, x.f++, x.f op= v) are shared
+// mutable state: every read / write of such a field through a pointer-typed identifier
+// (receiver, parameter, local) becomes a visible memory access vs.R(&x.f) / vs.W(&x.f),
+// inserted before the statement that performs it. Right operands of && and || and loop
+// conditions are left alone (hoisting them could dereference a nil pointer the original guards).
+
+func fieldOf(info *types.Info, e ast.Expr) (*ast.SelectorExpr, *types.Var) {
+	se, ok := e.(*ast.SelectorExpr)
+	if !ok {
+		return nil, nil
+	}
+	sel := info.Selections[se]
+	if sel == nil || sel.Kind() != types.FieldVal {
+		return nil, nil
+	}
+	v, ok := sel.Obj().(*types.Var)
+	if !ok {
+		return nil, nil
+	}
+	return se, v
+}
+
+func collectMutableFields(f *ast.File, info *types.Info, m map[*types.Var]bool) {
+	ast.Inspect(f, func(n ast.Node) bool {
+		switch x := n.(type) {
+		case *ast.AssignStmt:
+			for _, l := range x.Lhs {
+				if _, v := fieldOf(info, l); v != nil {
+					m[v] = true
+				}
+			}
+		case *ast.IncDecStmt:
+			if _, v := fieldOf(info, x.X); v != nil {
+				m[v] = true
+			}
+		}
+		return true
+	})
+}
+
+func (r *rewriter) ptrIdentBase(se *ast.SelectorExpr) *ast.Ident {
+	id, ok := se.X.(*ast.Ident)
+	if !ok {
+		return nil
+	}
+	t := r.info.TypeOf(id)
+	if t == nil {
+		return nil
+	}
+	if _, ok := t.Underlying().(*types.Pointer); !ok {
+		return nil
+	}
+	return id
+}
+
+func (r *rewriter) accessStmt(se *ast.SelectorExpr, id *ast.Ident, write bool) ast.Stmt {
+	fn := "R"
+	if write {
+		fn = "W"
+	}
+	return &ast.ExprStmt{X: call(vsel(fn), &ast.UnaryExpr{Op: token.AND, X: &ast.SelectorExpr{X: ast.NewIdent(id.Name), Sel: ast.NewIdent(se.Sel.Name)}})}
+}
+
+// readsIn collects instrumentable field reads of an expression (not descending into function
+// literals, nor into the right operand of && / ||).
+func (r *rewriter) readsIn(e ast.Expr, out *[]ast.Stmt) {
+	if e == nil {
+		return
+	}
+	ast.Inspect(e, func(n ast.Node) bool {
+		switch x := n.(type) {
+		case *ast.FuncLit:
+			return false
+		case *ast.BinaryExpr:
+			if x.Op == token.LAND || x.Op == token.LOR {
+				r.readsIn(x.X, out)
+				return false
+			}
+		case *ast.UnaryExpr:
+			if x.Op == token.AND {
+				return false // taking an address is not an access
+			}
+		case *ast.SelectorExpr:
+			if se, v := fieldOf(r.info, x); v != nil && r.mutable[v] {
+				if id := r.ptrIdentBase(se); id != nil {
+					*out = append(*out, r.accessStmt(se, id, false))
+				}
+			}
+		}
+		return true
+	})
+}
+
+func (r *rewriter) collectAccesses(list []ast.Stmt) {
+	for _, st := range list {
+		pre := []ast.Stmt{}
+		simple := func(s ast.Stmt) {
+			switch x := s.(type) {
+			case *ast.ExprStmt:
+				r.readsIn(x.X, &pre)
+			case *ast.AssignStmt:
+				for _, e := range x.Rhs {
+					r.readsIn(e, &pre)
+				}
+				for _, l := range x.Lhs {
+					if se, v := fieldOf(r.info, l); v != nil {
+						if id := r.ptrIdentBase(se); id != nil && r.mutable[v] {
+							pre = append(pre, r.accessStmt(se, id, true))
+						}
+						continue
+					}
+					if ix, ok := l.(*ast.IndexExpr); ok {
+						r.readsIn(ix.X, &pre)
+						r.readsIn(ix.Index, &pre)
+					}
+				}
+			case *ast.IncDecStmt:
+				if se, v := fieldOf(r.info, x.X); v != nil && r.mutable[v] {
+					if id := r.ptrIdentBase(se); id != nil {
+						pre = append(pre, r.accessStmt(se, id, true))
+					}
+				}
+			case *ast.SendStmt:
+				r.readsIn(x.Chan, &pre)
+				r.readsIn(x.Value, &pre)
+			}
+		}
+		switch x := st.(type) {
+		case *ast.ExprStmt, *ast.AssignStmt, *ast.IncDecStmt, *ast.SendStmt:
+			simple(x)
+		case *ast.IfStmt:
+			if x.Init == nil {
+				r.readsIn(x.Cond, &pre)
+			}
+		case *ast.ReturnStmt:
+			for _, e := range x.Results {
+				r.readsIn(e, &pre)
+			}
+		case *ast.SwitchStmt:
+			if x.Init == nil {
+				r.readsIn(x.Tag, &pre)
+			}
+		case *ast.RangeStmt:
+			r.readsIn(x.X, &pre)
+		case *ast.GoStmt:
+			for _, a := range x.Call.Args {
+				r.readsIn(a, &pre)
+			}
+		case *ast.DeferStmt:
+			for _, a := range x.Call.Args {
+				r.readsIn(a, &pre)
+			}
+		case *ast.DeclStmt:
+			if gd, ok := x.Decl.(*ast.GenDecl); ok {
+				for _, sp := range gd.Specs {
+					if vsp, ok := sp.(*ast.ValueSpec); ok {
+						for _, e := range vsp.Values {
+							r.readsIn(e, &pre)
+						}
+					}
+				}
+			}
+		}
+		if len(pre) > 0 {
+			r.pre[st] = pre
+		}
+	}
 }
 
 func (r *rewriter) tmp(p string) *ast.Ident { r.n++; return ast.NewIdent(fmt.Sprintf("__%s%d", p, r.n)) }
@@ -180,9 +361,15 @@ func instrument(importPath, src, dst string, typecheckOnly bool) error {
 			continue
 		}
 		os.MkdirAll(dst, 0777)
+		mutable := map[*types.Var]bool{}
+		if pkgRace {
+			for _, f := range files {
+				collectMutableFields(f, info, mutable)
+			}
+		}
 		for i, f := range files {
 			bl := buildLine(f)
-			r := &rewriter{info: info, file: names[i]}
+			r := &rewriter{info: info, file: names[i], mutable: mutable}
 			nf := r.rewrite(f)
 			uses := false
 			ast.Inspect(nf, func(n ast.Node) bool {
@@ -283,6 +470,20 @@ func (r *rewriter) pos(n ast.Node) string { return fset.Position(n.Pos()).String
 func (r *rewriter) rewrite(f *ast.File) *ast.File {
 	acts := map[ast.Node]action{}
 	labeled := map[ast.Stmt]bool{}
+	r.pre = map[ast.Stmt][]ast.Stmt{}
+	if pkgRace {
+		ast.Inspect(f, func(n ast.Node) bool {
+			switch x := n.(type) {
+			case *ast.BlockStmt:
+				r.collectAccesses(x.List)
+			case *ast.CaseClause:
+				r.collectAccesses(x.Body)
+			case *ast.CommClause:
+				r.collectAccesses(x.Body)
+			}
+			return true
+		})
+	}
 	// classification pass on the ORIGINAL tree (types known)
 	ast.Inspect(f, func(n ast.Node) bool {
 		switch x := n.(type) {
@@ -300,11 +501,11 @@ func (r *rewriter) rewrite(f *ast.File) *ast.File {
 				case "len":
 					if r.isChan(x.Args[0]) {
 						acts[x] = aLen
-					} else if *raceMode && r.isMap(x.Args[0]) {
+					} else if pkgRace && r.isMap(x.Args[0]) {
 						acts[x] = aMapLen
 					}
 				case "delete":
-					if *raceMode {
+					if pkgRace {
 						acts[x] = aMapDel
 					}
 				case "cap":
@@ -325,17 +526,11 @@ func (r *rewriter) rewrite(f *ast.File) *ast.File {
 				if u, ok := x.Rhs[0].(*ast.UnaryExpr); ok && u.Op == token.ARROW {
 					acts[u] = aRecv2Assign
 				}
-				if ix, ok := x.Rhs[0].(*ast.IndexExpr); ok && *raceMode && r.isMap(ix.X) {
-					acts[ix] = aMapGet2
-				}
 			}
-			if *raceMode {
+			if pkgRace {
 				for _, l := range x.Lhs {
 					if ix, ok := l.(*ast.IndexExpr); ok && r.isMap(ix.X) {
-						if len(x.Lhs) == 1 && x.Tok == token.ASSIGN {
-							acts[x] = aMapSet
-						}
-						acts[ix] = aSkip
+						acts[ix] = aMapSet
 					}
 				}
 			}
@@ -346,11 +541,11 @@ func (r *rewriter) rewrite(f *ast.File) *ast.File {
 				}
 			}
 		case *ast.IncDecStmt:
-			if ix, ok := x.X.(*ast.IndexExpr); ok && *raceMode && r.isMap(ix.X) {
-				acts[ix] = aSkip
+			if ix, ok := x.X.(*ast.IndexExpr); ok && pkgRace && r.isMap(ix.X) {
+				acts[ix] = aMapSet
 			}
 		case *ast.IndexExpr:
-			if *raceMode && r.isMap(x.X) && acts[x] == aNone {
+			if pkgRace && r.isMap(x.X) && acts[x] == aNone {
 				acts[x] = aMapGet
 			}
 		case *ast.RangeStmt:
@@ -382,20 +577,21 @@ func (r *rewriter) rewrite(f *ast.File) *ast.File {
 	})
 	res := astutil.Apply(f, nil, func(c *astutil.Cursor) bool {
 		n := c.Node()
+		if st, ok := n.(ast.Stmt); ok && len(r.pre[st]) > 0 && c.Index() >= 0 {
+			for _, p := range r.pre[st] {
+				c.InsertBefore(p)
+			}
+			delete(r.pre, st)
+		}
 		switch x := n.(type) {
 		case *ast.ChanType:
 			c.Replace(chanType(x.Value))
 		case *ast.IndexExpr:
 			switch acts[x] {
 			case aMapGet:
-				c.Replace(call(vsel("MapGet"), x.X, x.Index))
-			case aMapGet2:
-				c.Replace(call(vsel("MapGet2"), x.X, x.Index))
-			}
-		case *ast.AssignStmt:
-			if acts[x] == aMapSet {
-				ix := x.Lhs[0].(*ast.IndexExpr)
-				c.Replace(&ast.ExprStmt{X: call(vsel("MapSet"), ix.X, ix.Index, x.Rhs[0])})
+				x.X = call(vsel("MapRead"), x.X)
+			case aMapSet:
+				x.X = call(vsel("MapW"), x.X)
 			}
 		case *ast.SendStmt:
 			c.Replace(&ast.ExprStmt{X: method(x.Chan, "Send", x.Value)})
@@ -425,9 +621,9 @@ func (r *rewriter) rewrite(f *ast.File) *ast.File {
 			case aLen:
 				c.Replace(method(x.Args[0], "Len"))
 			case aMapLen:
-				c.Replace(call(vsel("MapLen"), x.Args[0]))
+				x.Args[0] = call(vsel("MapRead"), x.Args[0])
 			case aMapDel:
-				c.Replace(call(vsel("MapDel"), x.Args...))
+				x.Args[0] = call(vsel("MapW"), x.Args[0])
 			case aCap:
 				c.Replace(method(x.Args[0], "Cap"))
 			case aShimFunc:
@@ -501,7 +697,7 @@ func (r *rewriter) rewrite(f *ast.File) *ast.File {
 					pre = append(pre, &ast.AssignStmt{Lhs: asgL, Tok: token.ASSIGN, Rhs: asgR})
 				}
 				m := x.X
-				if *raceMode {
+				if pkgRace {
 					m = call(vsel("MapRead"), m)
 				}
 				c.Replace(&ast.ForStmt{
